@@ -4,6 +4,7 @@ import StepModel.P21.LexGap
 import StepModel.P21.FloatShape
 import StepModel.P21.FloatRead
 import StepModel.P21.AggrLemmas
+import StepModel.P21.RtsLemmas
 import StepModel.Generated.P21RWGen
 import StepModel.Generated.P21LexGen
 /-!
@@ -1086,6 +1087,24 @@ theorem C09_writer_real_zero_round_trips (p : Nat) (hp : 1 ≤ p) :
     Dbl.readsBack (Dbl.fmtG p 0) 0 = true ∧ Dbl.readsBack (Dbl.fmtG p Dbl.signBit) Dbl.signBit = true :=
   ⟨dbl_fmtG_readsBack p hp 0 (by decide) (by decide) (fun h => absurd h (by decide)),
    dbl_fmtG_readsBack p hp Dbl.signBit (by decide) (by decide) (fun h => absurd h (by decide))⟩
+
+set_option exponentiation.threshold 2000 in
+set_option maxRecDepth 100000 in
+/-- `h17` at the edges of the format (kernel evaluation of the model's `%.17G` and `strtod`): DBL_MAX, the smallest and the
+    largest subnormal, DBL_MIN, 1, the double below 1, -1/3, 2^53 and the double below it all convert back from 17 digits;
+    DBL_MAX does not from 16 -/
+theorem C09_writer_seventeen_digits_witness :
+    Dbl.readsBack (Dbl.fmtG 17 0x7FEFFFFFFFFFFFFF) 0x7FEFFFFFFFFFFFFF = true ∧
+    Dbl.readsBack (Dbl.fmtG 17 0x0000000000000001) 0x0000000000000001 = true ∧
+    Dbl.readsBack (Dbl.fmtG 17 0x000FFFFFFFFFFFFF) 0x000FFFFFFFFFFFFF = true ∧
+    Dbl.readsBack (Dbl.fmtG 17 0x0010000000000000) 0x0010000000000000 = true ∧
+    Dbl.readsBack (Dbl.fmtG 17 0x3FF0000000000000) 0x3FF0000000000000 = true ∧
+    Dbl.readsBack (Dbl.fmtG 17 0x3FEFFFFFFFFFFFFF) 0x3FEFFFFFFFFFFFFF = true ∧
+    Dbl.readsBack (Dbl.fmtG 17 0xBFD5555555555555) 0xBFD5555555555555 = true ∧
+    Dbl.readsBack (Dbl.fmtG 17 0x4340000000000000) 0x4340000000000000 = true ∧
+    Dbl.readsBack (Dbl.fmtG 17 0x433FFFFFFFFFFFFF) 0x433FFFFFFFFFFFFF = true ∧
+    Dbl.readsBack (Dbl.fmtG 16 0x7FEFFFFFFFFFFFFF) 0x7FEFFFFFFFFFFFFF = false := by
+  decide +kernel
 
 /-- what 15 digits lose, and what the repair restores (kernel evaluation): 0.1 + 0.2 = 0x3FD3333333333334 is written `0.3` by
     the 15-digit writer, which reads back as 0x3FD3333333333333 — another double; the repaired writer writes
@@ -3007,6 +3026,122 @@ theorem C09_aggr_ref_element_never_silent {F} (env : Env F) (tg : String) (s : I
       AtDelimOrEnd env.lex s1.right :=
   elemCore_ref_sound_any env tg l c t sk hc hd h47 e v s1 (elemRead_core env (.entity tg) s l c t sk hsA e v s1 h hne) hne
 
+/-! ### the element theorems on an **arbitrary** stream (final proof round)
+
+`hsA` discharged in general: `readTokenSeparator_head` (`P21/RtsLemmas.lean`) specifies `ReadTokenSeparator` on arbitrary input —
+when it leaves a stream with no flag pending and input left, that stream stands in front of a character that is not a blank, `/`
+or `\`.  So the element theorems hold for a round of the loop standing on *any* stream `s`; what they describe is
+`(readTokenSeparator s).right`, the input behind whatever the token-separator skip consumed.  They do **not** say that what was
+skipped is a conforming layout — it is not always: a `/` that starts no comment and an incomplete print control directive are
+dropped without a report (finding `agg:stray-slash-or-backslash-dropped`, `C09_aggr_stray_slash_witness`). -/
+
+theorem C09_aggr_hsA_general {F} (env : Env F) (hagg : env.cfg.aggrSkipsComments = true) (s : IStream)
+    (hg : (readTokenSeparator s).good = true) (hr : (readTokenSeparator s).right ≠ []) :
+    ∃ l c t sk, (if env.cfg.aggrSkipsComments then readTokenSeparator s else s) = G l (c :: t) sk ∧
+      isSpace c = false ∧ c ≠ 47 ∧ c ≠ 92 := by
+  simp only [hagg, if_true]
+  exact readTokenSeparator_head s hg hr
+
+theorem C09_aggr_integer_element_never_silent_any_stream {F} (env : Env F) (hcfg : env.lex.intReportsFail = true)
+    (hagg : env.cfg.aggrSkipsComments = true) (s : IStream)
+    (hg : (readTokenSeparator s).good = true) (hr : (readTokenSeparator s).right ≠ [])
+    (e : Sev) (v : Elem F) (s1 : IStream)
+    (h : elemRead env .integer s = .ok (e, v, s1)) (hne : ¬ e.toInt < Sev.incomplete.toInt) :
+    e = .null ∧ ∃ tok sp2 sp3, (readTokenSeparator s).right = tok ++ sp2 ++ sp3 ++ s1.right ∧ Between env.lex sp2 ∧
+      Between env.lex sp3 ∧ isInteger tok = true ∧ longMin ≤ denoteInteger tok ∧ denoteInteger tok ≤ longMax ∧
+      v = .atom (valueToAtom (intValue (some (denoteInteger tok)) : Value F)) ∧ AtDelimOrEnd env.lex s1.right := by
+  obtain ⟨l, c, t, sk, hsA, hc, h47, _⟩ := C09_aggr_hsA_general env hagg s hg hr
+  have hR : (readTokenSeparator s).right = c :: t := by
+    have := hsA; simp only [hagg, if_true] at this; rw [this]
+  rw [hR]
+  exact C09_aggr_integer_element_never_silent env hcfg s l c t sk hsA hc e v s1 h hne
+
+theorem C09_aggr_real_element_never_silent_any_stream {F} (env : Env F) (hcfg : env.lex.realReportsFail = true) (ty : ElemTy)
+    (hty : ty = .real ∨ (ty = .number ∧ env.cfg.numberElemReadsNumber = false)) (hagg : env.cfg.aggrSkipsComments = true) (s : IStream)
+    (hg : (readTokenSeparator s).good = true) (hr : (readTokenSeparator s).right ≠ [])
+    (hd : ∀ c t, (readTokenSeparator s).right = c :: t → delimAt env.lex attrDelims c = false)
+    (e : Sev) (v : Elem F) (s1 : IStream)
+    (h : elemRead env ty s = .ok (e, v, s1)) (hne : ¬ e.toInt < Sev.incomplete.toInt) :
+    e = .null ∧ ∃ tok sp2 sp3 d x, (readTokenSeparator s).right = tok ++ sp2 ++ sp3 ++ s1.right ∧ Between env.lex sp2 ∧
+      Between env.lex sp3 ∧ isReal tok = true ∧ denoteReal tok = some d ∧ env.ops.ofDecimal d = some x ∧
+      v = .atom (valueToAtom (realValue env.ops (some x))) ∧ AtDelimOrEnd env.lex s1.right := by
+  obtain ⟨l, c, t, sk, hsA, hc, h47, _⟩ := C09_aggr_hsA_general env hagg s hg hr
+  have hR : (readTokenSeparator s).right = c :: t := by
+    have := hsA; simp only [hagg, if_true] at this; rw [this]
+  rw [hR]
+  exact C09_aggr_real_element_never_silent env hcfg ty hty s l c t sk hsA hc (hd c t hR) h47 e v s1 h hne
+
+theorem C09_aggr_number_element_never_silent_any_stream {F} (env : Env F) (hcfg : env.lex.numberReportsFail = true)
+    (hnum : env.cfg.numberElemReadsNumber = true) (hagg : env.cfg.aggrSkipsComments = true) (s : IStream)
+    (hg : (readTokenSeparator s).good = true) (hr : (readTokenSeparator s).right ≠ [])
+    (e : Sev) (v : Elem F) (s1 : IStream)
+    (h : elemRead env .number s = .ok (e, v, s1)) (hne : ¬ e.toInt < Sev.incomplete.toInt) :
+    e = .null ∧ ∃ tok sp2 sp3 d x, (readTokenSeparator s).right = tok ++ sp2 ++ sp3 ++ s1.right ∧ Between env.lex sp2 ∧
+      Between env.lex sp3 ∧ denoteReal tok = some d ∧ env.ops.ofDecimal d = some x ∧
+      v = .atom (valueToAtom (realValue env.ops (some x))) ∧ AtDelimOrEnd env.lex s1.right := by
+  obtain ⟨l, c, t, sk, hsA, hc, h47, _⟩ := C09_aggr_hsA_general env hagg s hg hr
+  have hR : (readTokenSeparator s).right = c :: t := by
+    have := hsA; simp only [hagg, if_true] at this; rw [this]
+  rw [hR]
+  exact C09_aggr_number_element_never_silent env hcfg hnum s l c t sk hsA hc e v s1 h hne
+
+theorem C09_aggr_string_element_never_silent_any_stream {F} (env : Env F) (hagg : env.cfg.aggrSkipsComments = true) (s : IStream)
+    (hg : (readTokenSeparator s).good = true) (hr : (readTokenSeparator s).right ≠ [])
+    (hd : ∀ c t, (readTokenSeparator s).right = c :: t → delimAt env.lex attrDelims c = false)
+    (e : Sev) (v : Elem F) (s1 : IStream)
+    (h : elemRead env .string s = .ok (e, v, s1)) (hne : ¬ e.toInt < Sev.incomplete.toInt) :
+    e = .null ∧ ∃ tok sp3, (readTokenSeparator s).right = tok ++ sp3 ++ s1.right ∧ isStringLenient tok = true ∧
+      Between env.lex sp3 ∧ v = .atom (.str tok) ∧ AtDelimOrEnd env.lex s1.right := by
+  obtain ⟨l, c, t, sk, hsA, hc, h47, _⟩ := C09_aggr_hsA_general env hagg s hg hr
+  have hR : (readTokenSeparator s).right = c :: t := by
+    have := hsA; simp only [hagg, if_true] at this; rw [this]
+  rw [hR]
+  exact C09_aggr_string_element_never_silent env s l c t sk hsA hc (hd c t hR) h47 e v s1 h hne
+
+theorem C09_aggr_binary_element_never_silent_any_stream {F} (env : Env F) (hcfg : env.lex.binaryRejectsEmpty = true)
+    (hagg : env.cfg.aggrSkipsComments = true) (s : IStream)
+    (hg : (readTokenSeparator s).good = true) (hr : (readTokenSeparator s).right ≠ [])
+    (e : Sev) (v : Elem F) (s1 : IStream)
+    (h : elemRead env .binary s = .ok (e, v, s1)) (hne : ¬ e.toInt < Sev.incomplete.toInt) :
+    e = .null ∧ ∃ hex sp3, (readTokenSeparator s).right = 34 :: (hex ++ 34 :: (sp3 ++ s1.right)) ∧ hex ≠ [] ∧
+      hex.all isXDigit = true ∧ Between env.lex sp3 ∧ v = .atom (.bin hex) ∧ AtDelimOrEnd env.lex s1.right := by
+  obtain ⟨l, c, t, sk, hsA, hc, h47, _⟩ := C09_aggr_hsA_general env hagg s hg hr
+  have hR : (readTokenSeparator s).right = c :: t := by
+    have := hsA; simp only [hagg, if_true] at this; rw [this]
+  rw [hR]
+  exact C09_aggr_binary_element_never_silent env hcfg s l c t sk hsA hc e v s1 h hne
+
+theorem C09_aggr_enum_element_never_silent_any_stream {F} (env : Env F) (ty : ElemTy) (het : EnumTy ty) (hagg : env.cfg.aggrSkipsComments = true) (s : IStream)
+    (hg : (readTokenSeparator s).good = true) (hr : (readTokenSeparator s).right ≠ [])
+    (hd : ∀ c t, (readTokenSeparator s).right = c :: t → c ≠ 44 ∧ c ≠ 41)
+    (e : Sev) (v : Elem F) (s1 : IStream)
+    (h : elemRead env ty s = .ok (e, v, s1)) (hne : ¬ e.toInt < Sev.incomplete.toInt) :
+    e = .null ∧ ∃ name i sp3, (readTokenSeparator s).right = 46 :: (name ++ 46 :: (sp3 ++ s1.right)) ∧ name ≠ [] ∧
+      name.all pw = true ∧ findName (enumKindOf ty).table (name.map toUpper) = some i ∧
+      (env.lex.logicalRejectsUnset = true → (enumKindOf ty).isUnsetIdx i = false) ∧ Between env.lex sp3 ∧
+      v = .atom (valueToAtom (enumValue (enumKindOf ty) (some i) : Value F)) ∧ AtDelimOrEnd env.lex s1.right := by
+  obtain ⟨l, c, t, sk, hsA, hc, h47, _⟩ := C09_aggr_hsA_general env hagg s hg hr
+  have hR : (readTokenSeparator s).right = c :: t := by
+    have := hsA; simp only [hagg, if_true] at this; rw [this]
+  rw [hR]
+  exact C09_aggr_enum_element_never_silent env ty het s l c t sk hsA hc (hd c t hR).1 (hd c t hR).2 e v s1 h hne
+
+theorem C09_aggr_ref_element_never_silent_any_stream {F} (env : Env F) (tg : String) (hagg : env.cfg.aggrSkipsComments = true) (s : IStream)
+    (hg : (readTokenSeparator s).good = true) (hr : (readTokenSeparator s).right ≠ [])
+    (hd : ∀ c t, (readTokenSeparator s).right = c :: t → delimAt env.lex attrDelims c = false)
+    (e : Sev) (v : Elem F) (s1 : IStream)
+    (h : elemRead env (.entity tg) s = .ok (e, v, s1)) (hne : ¬ e.toInt < Sev.incomplete.toInt) :
+    e = .null ∧ ∃ spx tok sp2 sp3, (readTokenSeparator s).right = 35 :: (spx ++ tok ++ sp2 ++ sp3 ++ s1.right) ∧
+      spx.all isSpace = true ∧ Between env.lex sp2 ∧ Between env.lex sp3 ∧ isInteger tok = true ∧
+      intMin ≤ denoteInteger tok ∧ denoteInteger tok ≤ intMax ∧
+      refLookup env.lookup tg (denoteInteger tok) = .found ∧ v = .atom (.ref (denoteInteger tok)) ∧
+      AtDelimOrEnd env.lex s1.right := by
+  obtain ⟨l, c, t, sk, hsA, hc, h47, _⟩ := C09_aggr_hsA_general env hagg s hg hr
+  have hR : (readTokenSeparator s).right = c :: t := by
+    have := hsA; simp only [hagg, if_true] at this; rw [this]
+  rw [hR]
+  exact C09_aggr_ref_element_never_silent env tg s l c t sk hsA hc (hd c t hR) h47 e v s1 h hne
+
 /-- a `LoopRun` stores one value per element-reader call (so the count of stored elements is the count of element positions) -/
 theorem C09_aggr_looprun_elements {F} (env : Env F) (ty : ElemTy) (c : Byte) (s sf : IStream) (vs : List (Elem F))
     (h : LoopRun env ty c s vs sf) :
@@ -3058,6 +3193,17 @@ theorem C09_aggr_number_integer_spelling_witness :
     (match aggrRead (aggEnvWith false true) .number (IStream.ofBytes [40, 51, 41, 44]) with
       | .ok (sev, some [.atom (.real v)], _) => sev == .null && v == 0x4008000000000000
       | _ => false) = true := by
+  decide
+
+/-- what `ReadTokenSeparator` skips is not always a separator (finding `agg:stray-slash-or-backslash-dropped`): `(0, / 7)`,
+    `(0,/7)`, `(0, \ 7)` and `(0, \N 7)` — a `/` that starts no comment, a `\` that starts no complete print control
+    directive — are read as `(0,7)` with severity NULL; behind the element, `(0 / ,7)`, the same `/` is reported -/
+theorem C09_aggr_stray_slash_witness :
+    aggrSilent (aggrRead sampleEnv .integer (IStream.ofBytes [40, 48, 44, 32, 47, 32, 55, 41, 44])) [.atom (.int 0), .atom (.int 7)] = true ∧
+    aggrSilent (aggrRead sampleEnv .integer (IStream.ofBytes [40, 48, 44, 47, 55, 41, 44])) [.atom (.int 0), .atom (.int 7)] = true ∧
+    aggrSilent (aggrRead sampleEnv .integer (IStream.ofBytes [40, 48, 44, 32, 92, 32, 55, 41, 44])) [.atom (.int 0), .atom (.int 7)] = true ∧
+    aggrSilent (aggrRead sampleEnv .integer (IStream.ofBytes [40, 48, 44, 32, 92, 78, 32, 55, 41, 44])) [.atom (.int 0), .atom (.int 7)] = true ∧
+    aggrSev (aggrRead sampleEnv .integer (IStream.ofBytes [40, 48, 32, 47, 32, 44, 55, 41, 44])) = some .warning := by
   decide
 
 end Aggregates
